@@ -183,7 +183,7 @@ TargetAcc(req) == shape[req.mod][CHOOSE a \in DOMAIN shape[req.mod] : shape[req.
 IsKnown(req) == req.act # "none" /\ Known(Described(shape), req)
 EventsOf(c, o) ==
   LET req == o.req
-      known == IsKnown(req)
+      known == IsKnown(req) /\ ~(req.act = "activate" /\ req.name = "")     \* (a single accessible is addressed)
       acc == TargetAcc(req)
       isp == known /\ acc.kind = "param"
       dt == IF isp THEN DescDt(acc.dt) ELSE IF known THEN acc.arg ELSE NoDt    \* what a client rebuilds
@@ -193,7 +193,7 @@ EventsOf(c, o) ==
        real_ok |-> IF known /\ dt # NoDt /\ ~(req.act = "do" /\ req.payload = Null) THEN Validate(dt, req.payload, prev).ok ELSE TRUE,
        imp |-> TRUE,
        strict |-> isp /\ acc.hooks = <<>> /\ acc.lim.kind = "none" /\ acc.drv # "raise" /\ acc.dt.t # "limits",
-       upd |-> IF o.snap = Null THEN <<>>
+       upd |-> IF ~o.hassnap THEN <<>>
                ELSE SetSeq({[mod |-> u.mod, name |-> u.name, v |-> u.v, imp |-> TRUE, err |-> FALSE] : u \in o.snap})]
       : k \in (IF o.reply.ok THEN {"ok"} ELSE o.reply.cls)}
 DescriptionTrue ==
